@@ -325,8 +325,10 @@ func gsub(t *rt.Thread, c *rt.GoCont) (rt.Cont, error) {
 	// copying the string until one substitution has actually taken place.  This
 	// is achieved by keeping the variable sj the same until bytes are written
 	// in the string builder.
+	// A pattern anchored with '^' can only match at the start of s.
+	anchored := pat.StartAnchored()
 	for ; matchCount != n; matchCount++ {
-		captures, usedCPU := pat.Match(string(s), si, t.UnusedCPU())
+		captures, usedCPU := pat.MatchFromStart(string(s), si, t.UnusedCPU())
 		t.RequireCPU(usedCPU)
 		if len(captures) == 0 {
 			break
@@ -352,6 +354,10 @@ func gsub(t *rt.Thread, c *rt.GoCont) (rt.Cont, error) {
 			si = start + 1
 		} else {
 			si = end
+		}
+		if anchored {
+			matchCount++
+			break
 		}
 	}
 	var res rt.Value
